@@ -4,8 +4,8 @@ import json, os, sys
 VERIF = os.path.dirname(os.path.dirname(os.path.abspath(__file__)))
 
 CLAIMS = {
- "C01": ("other", "MIR dataflow: normalizer routing, sibling agreement, representation-only arms, window bounds",
-         "Decides structural necessary conditions of the fuzzy accept/reject relation: every haystack/needle comparison goes through the one normalizer, the two normalizer siblings agree, no arm decides by representation alone, ASCII prefilter folding equals AsciiChar::normalize, candidate windows are h-n+1. Does not decide the iff itself.", "§3 C01"),
+ "C01": ("other", "MIR dataflow: normalizer routing, sibling agreement, representation-only arms, window bounds; finite-domain evaluation of the ASCII normalizers (256 bytes x config) and of every two-byte case-insensitive search",
+         "Decides structural necessary conditions of the fuzzy accept/reject relation: every haystack/needle comparison goes through the one normalizer, the two normalizer siblings agree (as complete functions of byte x config for AsciiChar), no arm decides by representation alone, ASCII prefilter searches exactly the pre-images under AsciiChar::normalize, candidate windows are h-n+1. Does not decide the iff itself.", "§3 C01"),
  "C02": ("other", "MIR method-set + path rules on the indices vector, twin comparison of _match/_indices bodies",
          "Decides: indices vector is append-only, nothing appended on a path that returns None, INDICES-guarded code cannot affect the score, _match/_indices twins agree. Does not decide index validity for all inputs.", "§3 C02"),
  "C03": ("other", "const evaluation vs fzf scheme, exhaustive abstract evaluation of bonus_for over 7x7 classes, loop-carried-state rule, overflow obligations",
@@ -14,8 +14,8 @@ CLAIMS = {
          "Decides: every 'cannot get better' early exit compares against a value that dominates every bonus_for result in every constructible Config; prefix preference is additive, non-negative and bounded. Optimality itself is not decided.", "§3 C04"),
  "C05": ("other", "affine forms of candidate windows, prefilter-arm agreement, trimming guards",
          "Decides: candidate windows are h-n+p, prefilter arms agree on (prefix searched, prefilter length, window), trimming guards identical in twins and as documented. The relations themselves are not decided.", "§3 C05"),
- "C06": ("other", "who-may-call + source sets for unchecked reads, ordered-list typestate, comparator chain extraction, guard dominance",
-         "Decides the clauses on which memory safety of reading a snapshot rests: unchecked item reads are fed only by indices that passed a checked lookup, in-flight list producers preserve order, placeholder accounting, comparator chain, snapshot-update guard. Not the set equality under all interleavings.", "§3 C06"),
+ "C06": ("other", "who-may-call + source sets for unchecked reads, ordered-list typestate, comparator as a decision function over the orderings of its documented keys, guard dominance",
+         "Decides the clauses on which memory safety of reading a snapshot rests: unchecked item reads are fed only by indices that passed a checked lookup, in-flight list producers preserve order, placeholder accounting, the comparator equals the documented order on all consistent key orderings, snapshot-update guard. Not the set equality under all interleavings.", "§3 C06"),
  "C08": ("other", "atomic op inventory, dominance of initialisation over publication, read gating, CAS shape",
          "Decides: index reservation is a single RMW and the only writer of the counter; slot initialisation dominates publication and nothing touches the slot afterwards; lookups read a slot only under active==true; lying-iterator guard. Not linearizability.", "§3 C08"),
  "C09": ("other", "ordering table over every atomic operation (resolved constants), confinement of UnsafeCell matchers, Send/Sync bounds",
@@ -26,14 +26,14 @@ CLAIMS = {
          "Decides: Drop visits every bucket; who may free; drops gated on the active flag; value moved into the slot only after the fallible callback; no leak primitives. Not exactly-once over all histories.", "§3 C11"),
  "C12": ("other", "post-dominance in restart, guard set of Snapshot::update, derived per-stream field reset completeness",
          "Decides: restart installs a fresh vector + Cleared + cancel; stale-run guard dominates Snapshot::update; worker stream switch dominates the spawn; run(cleared) resets every per-stream field; clear/update write every snapshot field.", "§3 C12"),
- "C13": ("other", "post-dominance of notify, must-pass-through flag check on run exits, lock-region rule for arming stores",
+ "C13": ("other", "post-dominance of notify, must-pass-through flag check on run exits, typestate dataflow of the worker-mutex guard (through Option wrapping and helpers) for arming stores",
          "Decides the pairing discipline of the wake-up protocol; one genuine defect (lost wake-up) is a recorded known finding. Not liveness over schedules.", "§3 C13"),
- "C14": ("other", "twin comparison of parse/reparse, who-may-call of the marker parser, byte decision-tree extraction",
-         "Narrow claim: Pattern::parse/reparse run the same pipeline, Pattern::new never reaches the marker parser, marker byte tables equal the documented grammar. Escape/segmentation grammar over all strings is not decided.", "§3 C14"),
+ "C14": ("other", "decision-table extraction of Atom::parse evaluated on a complete finite abstraction of its input; finite transducer of the escape loop vs the ASCII replace; decision table of the word splitter; iterator-pipeline twins of parse/reparse",
+         "Decides: the marker grammar of Atom::parse (text, kind, negative, append_dollar for every input, via a witness domain that is complete for the bounded inspection depth); the word splitter's table; that the ASCII and the non-ASCII half of Atom::new_inner unescape identically (`\\ ` → space, other backslashes kept); parse/reparse run the same pipeline; Pattern::new never reaches the marker parser; flag sources for smart case. Smart-case/normalization decisions over all strings are not decided.", "§3 C14"),
  "C15": ("other", "dominance of config stores, exhaustive dispatch-table extraction, negation shape, sum/propagate CFG shape, stable sort callee",
          "Decides the compositional shape: per-atom config stores dominate every matcher call; kind→function tables exhaustive and agreeing; negation; ?-propagation; stable sort with Reverse(score).", "§3 C15"),
- "C16": ("proof", "table algebra over const-evaluated tables for all 1,112,064 scalars x 4 configurations + dispatch extraction",
-         "Exhaustive over a finite domain: the four tables are read from the compiler's const evaluator, the dispatch from MIR; sortedness, idempotence, ASCII fixed points, block confinement, NFKD and simple-case-folding oracles are checked for every scalar.", "§3 C16"),
+ "C16": ("proof", "table algebra over const-evaluated tables for all 1,112,064 scalars x 4 configurations + dispatch extraction from decision paths + fold-lookup semantics (found / not found)",
+         "Exhaustive over a finite domain: the four tables are read from the compiler's const evaluator, the dispatch intervals and the fold lookup from MIR decision paths; sortedness, idempotence, ASCII fixed points, block confinement, NFKD and simple-case-folding oracles are checked for every scalar.", "§3 C16"),
  "C17": ("other", "who-may-call + control dependence of constructors on has_ascii_graphemes, accessor sibling agreement",
          "Narrow claim: every constructor decides by has_ascii_graphemes and fills by chars::graphemes; CR LF special case; accessors agree on both variants. Grapheme segmentation itself is library behaviour.", "§3 C17"),
  "C18": ("translation_validation", "per-function token equality with vendored rayon 1.10.0 quicksort.rs modulo an enumerated cancellation delta; MIR taint of the cancel result",
